@@ -189,6 +189,8 @@ type Sim struct {
 	spawnMu sync.Mutex
 	adopted int
 
+	hb byte // address used by racePublish / raceCollect
+
 	classCount [numClasses]int64
 
 	stallJumped time.Duration
@@ -428,15 +430,17 @@ func (s *Sim) body(g *G) {
 
 //go:norace
 func (s *Sim) recordPanic(g *G, r any, stack string) {
+	val := fmt.Sprint(r) // outside the bracket: fmt synchronises through a sync.Pool
 	raceDisable()
 	s.seq++
-	s.res.Panics = append(s.res.Panics, PanicRec{G: g.Name, Site: g.SpawnSite, Value: fmt.Sprint(r), Stack: stack, Seq: s.seq})
+	s.res.Panics = append(s.res.Panics, PanicRec{G: g.Name, Site: g.SpawnSite, Value: val, Stack: stack, Seq: s.seq})
 	s.halt = true
 	raceEnable()
 }
 
 //go:norace
 func (s *Sim) finish(g *G) {
+	racePublish(unsafe.Pointer(&s.hb))
 	raceDisable()
 	s.mu.Lock()
 	g.state = stDone
@@ -505,7 +509,7 @@ func goImpl(site string, fn func(), daemon bool) {
 //go:norace
 func (s *Sim) adopt(site string, wrapped bool) *G {
 	if s.poison {
-		runtime.Goexit()
+		freeze()
 	}
 	raceDisable()
 	s.spawnMu.Lock()
@@ -520,10 +524,7 @@ func (s *Sim) adopt(site string, wrapped bool) *G {
 	<-g.release
 	raceEnable()
 	if s.poison {
-		if wrapped {
-			s.finish(g)
-		}
-		runtime.Goexit()
+		freeze()
 	}
 	return g
 }
@@ -580,7 +581,7 @@ func Yield(class uint8) {
 		g = s.adopt("adopted", false)
 	}
 	if s.poison {
-		runtime.Goexit()
+		s.stop(g)
 	}
 	if g.noYield > 0 {
 		return
@@ -595,6 +596,7 @@ func Yield(class uint8) {
 
 //go:norace
 func (s *Sim) park(g *G, st int32, key uintptr, class uint8, pc uintptr) {
+	racePublish(unsafe.Pointer(&s.hb))
 	raceDisable()
 	g.class = class
 	g.pc = pc
@@ -607,7 +609,7 @@ func (s *Sim) park(g *G, st int32, key uintptr, class uint8, pc uintptr) {
 	<-g.release
 	raceEnable()
 	if s.poison {
-		runtime.Goexit()
+		s.stop(g)
 	}
 }
 
@@ -629,7 +631,7 @@ func BlockOn(key unsafe.Pointer) {
 		return
 	}
 	if s.poison {
-		runtime.Goexit()
+		s.stop(g)
 	}
 	s.park(g, stBlocked, uintptr(key), ClassLock, 0)
 }
@@ -1046,6 +1048,7 @@ func (s *Sim) Run(main func()) *Result {
 		g.state = stOut
 		g.release <- struct{}{}
 	}
+	raceCollect(unsafe.Pointer(&s.hb))
 	s.res.VirtualElapsed = time.Since(s.start) - s.stallJumped
 	s.res.Steps = s.steps
 	s.res.Digest = s.digest
@@ -1089,8 +1092,10 @@ func (s *Sim) advance() bool {
 	}
 }
 
-// teardown poisons every goroutine the simulator can reach so that the bubble
-// can end. Goroutines blocked inside the Go runtime cannot be reached.
+// teardown poisons the simulator and lets the harness helper goroutines
+// (daemons) run to their end, so that an orderly run leaves an empty bubble.
+// Goroutines of the library and of the actors that are still alive are left
+// parked for good (see freeze).
 //
 //go:norace
 func (s *Sim) teardown() {
@@ -1101,6 +1106,9 @@ func (s *Sim) teardown() {
 		var g *G
 		for k := 0; k < s.nlive; k++ {
 			c := s.g(int(s.live[k]))
+			if !c.Daemon || c.Adopted {
+				continue // stays parked for good (see freeze)
+			}
 			switch c.state {
 			case stParked, stBlocked, stIdleWait, stStallWait, stBlockedOrStall:
 				g = c
@@ -1124,7 +1132,37 @@ func (s *Sim) teardown() {
 //go:norace
 func Poisoned() bool {
 	s := cur.Load()
-	return s != nil && s.poison
+	if s == nil || !s.poison {
+		return false
+	}
+	if g := s.lookup(goid()); g != nil && g.Daemon && !g.Adopted {
+		return true // a harness helper on its way out: its sync operations are no-ops
+	}
+	freeze()
+	return true
+}
+
+// freeze stops the calling goroutine for good. Once a run is over (poisoned),
+// goroutines of the library and of the actors are not unwound: their deferred
+// calls would run without the program's synchronisation (the scheduler is
+// gone), which is unsafe and would show up as false data-race reports. They
+// stay durably blocked; the bubble ends with synctest's "blocked goroutines
+// remain" panic, which RunOne expects.
+//
+//go:norace
+func freeze() {
+	select {}
+}
+
+// stop ends (harness daemon) or freezes (everything else) the calling
+// goroutine of a poisoned simulator.
+//
+//go:norace
+func (s *Sim) stop(g *G) {
+	if g != nil && g.Daemon && !g.Adopted {
+		runtime.Goexit()
+	}
+	freeze()
 }
 
 // LiveNonDaemon returns the number of simulated goroutines that have not
